@@ -63,7 +63,7 @@ func (f *WithInputFromOctets) Call(s *slip.Scope, args slip.List, depth int) (re
 	}
 	d2 := depth + 1
 	args[1] = slip.EvalArg(s, args, 1, d2)
-	data := []byte(slip.CoerceToOctets(args[1]).(slip.Octets))
+	data := []byte(slip.OctetsOf(args[1]))
 
 	s2 := s.NewScope()
 	s2.Let(sym, slip.NewInputStream(bytes.NewReader(data)))
